@@ -63,10 +63,11 @@ pub fn c02(ctx: &Ctx) -> (CheckMeta, Outcome) {
     let mut out = run_all(tasks, threads());
     out.merge(c02_long_zero_extension(ctx));
     out.merge(all_small_images("C02", ctx));
+    out.merge(crate::props::huge::read_huge("C02", ctx));
     let meta = CheckMeta {
         property: "C02".into(),
         level: "model_checking".into(),
-        rule: "breadth-first exploration to the fixpoint of the real reader object (exact Debug-string state identity) for every (endianness, reader kind, backend, image); alphabet read_bits 0..=64, peek 1..=max twice, skip 0..=2W+1,3W,3W+1, read_unary; every transition compared with the bit-vector model (value, advance, bit_pos); a failed peek on a strict backend must leave the reader intact (the state continues); plus one long history per zero-extended reader: 140 000 (thorough 3 000 000) 64-bit reads/skips past the end must all see zeros; plus the small-scope section: EVERY one of the 2^16 two-byte streams (two words of a u8 reader; thorough also one word of a u16 reader; strict and zero-extended memory backends, both endiannesses) explored to the fixpoint with read_bits {1,2,3,7,8,9,16}, peeks, skips, unary and table-free gamma/delta/omega/zeta3/Golomb3 reads (thorough: read_bits 0..=17, every peek width, every skip 0..=17, all code variants incl. tables where the look-ahead suffices) - no choice of data values is involved there; distinct_nontrivial counts transitions that start in a state reached through at least one earlier operation".into(),
+        rule: "breadth-first exploration to the fixpoint of the real reader object (exact Debug-string state identity) for every (endianness, reader kind, backend, image); alphabet read_bits 0..=64, peek 1..=max twice, skip 0..=2W+1,3W,3W+1, read_unary; every transition compared with the bit-vector model (value, advance, bit_pos); a failed peek on a strict backend must leave the reader intact (the state continues); plus one long history per zero-extended reader: 140 000 (thorough 3 000 000) 64-bit reads/skips past the end must all see zeros; plus the small-scope section: EVERY one of the 2^16 two-byte streams (two words of a u8 reader; thorough also one word of a u16 reader; strict and zero-extended memory backends, both endiannesses) explored to the fixpoint with read_bits {1,2,3,7,8,9,16}, peeks, skips, unary and table-free gamma/delta/omega/zeta3/Golomb3 reads (thorough: read_bits 0..=17, every peek width, every skip 0..=17, all code variants incl. tables where the look-ahead suffices) - no choice of data values is involved there; plus read_unary and skip_bits of about 2^32 and more bits over a synthetic sparse word source; distinct_nontrivial counts transitions that start in a state reached through at least one earlier operation".into(),
         assumptions: vec!["reference model = canonical layout of C01 (harness/src/model.rs)".into(), "little-endian 64-bit host".into()],
     };
     (meta, out)
@@ -147,7 +148,7 @@ pub fn c07(ctx: &Ctx) -> (CheckMeta, Outcome) {
                         out.merge(explore(&run, rd));
                     }
                     // byte streams whose length is not a multiple of the word: the partial trailing word is not data
-                    if matches!(backend, "cursor" | "bufreader") && w > 8 {
+                    if matches!(backend, "cursor" | "bufreader" | "choppy") && w > 8 {
                         let img = &imgs[1];
                         for tl in [1usize, w / 8 - 1] {
                             let model = RdModel { bits: Bits::from_bytes(&img.bytes, e), e, zx: false, limit: nbits + 96, tables_ok: diag };
@@ -164,12 +165,13 @@ pub fn c07(ctx: &Ctx) -> (CheckMeta, Outcome) {
             }
         }
     }
-    let out = run_all(tasks, threads());
+    let mut out = run_all(tasks, threads());
+    out.merge(crate::props::huge::read_huge("C07", ctx));
     (
         std_meta(
             "C07",
             "model_checking",
-            "BFS to the fixpoint of the real reader for every (endianness, reader kind, backend in zero-extended/strict memory, vector/slice writer read back, Cursor and BufReader<Cursor> through WordAdapter, also over byte streams with a partial trailing word); alphabet: boundary read_bits/peek/skip, read_unary, every read variant (tables on/off) of 12 codes, io::Read of 0,1,3,8,9,17 bytes, and set_bit_pos(p) for EVERY p in 0..=L from EVERY reachable state; after every transition bit_pos() must equal the model position; states reached through a reported error (strict backends) are continued by seeks; a post-seek object that differs from every sequentially reached state is a new state and is expanded with the full alphabet (differential oracle: seek(p) == fresh reader that consumed p bits)",
+            "BFS to the fixpoint of the real reader for every (endianness, reader kind, backend in zero-extended/strict memory, vector/slice writer read back, Cursor and BufReader<Cursor> through WordAdapter, also over byte streams with a partial trailing word); alphabet: boundary read_bits/peek/skip, read_unary, every read variant (tables on/off) of 12 codes, io::Read of 0,1,3,8,9,17 bytes, and set_bit_pos(p) for EVERY p in 0..=L from EVERY reachable state; after every transition bit_pos() must equal the model position; states reached through a reported error (strict backends) are continued by seeks; a post-seek object that differs from every sequentially reached state is a new state and is expanded with the full alphabet (differential oracle: seek(p) == fresh reader that consumed p bits); the byte-stream backends include a seekable source that delivers its bytes in pieces (junctions inside and between words, ErrorKind::Interrupted at each junction); plus positions around and beyond 2^32 on a synthetic sparse word source: bit_pos after read_unary / skip_bits of about 2^32 bits and seeks to such positions followed by reads",
         ),
         out,
     )
@@ -212,7 +214,7 @@ pub fn c09(ctx: &Ctx) -> (CheckMeta, Outcome) {
                             let run = RdRun { property: "C09", model: &model, image: bytes, alphabet: &alphabet, max_states: 40_000, check_counter: false, max_depth: 0 };
                             out.merge(explore(&run, rd));
                             // a partial trailing word after the cut (byte streams only): still not data
-                            if matches!(backend, "cursor" | "bufreader") && w > 8 && (ncuts % 3 == 0) {
+                            if matches!(backend, "cursor" | "bufreader" | "choppy") && w > 8 && (ncuts % 3 == 0) {
                                 let tl = if ncuts % 2 == 0 { 1 } else { w / 8 - 1 };
                                 let rd = make_reader_tail(e, kind, backend, "", bytes, &vec![0xFF; tl]);
                                 let run = RdRun { property: "C09", model: &model, image: bytes, alphabet: &alphabet, max_states: 40_000, check_counter: false, max_depth: 0 };
@@ -542,7 +544,7 @@ pub fn tail_exact(prop: &'static str, ctx: &Ctx) -> Outcome {
     let mut tasks: Vec<Task> = vec![];
     for e in End::BOTH {
         for kind in KINDS {
-            for backend in ["memstrict", "vec", "cursor"] {
+            for backend in ["memstrict", "vec", "cursor", "choppy"] {
                 let diag = ctx.diag.clone();
                 let thorough = ctx.thorough;
                 tasks.push(Box::new(move || {
